@@ -417,9 +417,14 @@ Lemma step_changed : forall fixU fixD s now o,
 Proof.
   intros fixU fixD s now o.
   assert (A : forall s m c, changed (fst (do_add s m c)) = changed s).
-  { intros s0 m c. unfold do_add. repeat (destruct (_ : bool); try reflexivity). }
+  { intros s0 m c. unfold do_add.
+    destruct (mnormal m && has_normal (modes s0)); [reflexivity|].
+    destruct (c && (is_empty (mid m) || has (mid m) (modes s0))); [reflexivity|].
+    destruct (has (mid m) (modes s0)); reflexivity. }
   assert (U : forall s m k, changed (fst (do_update fixU s m k)) = changed s).
-  { intros s0 m k. unfold do_update. repeat (destruct (_ : bool); try reflexivity).
+  { intros s0 m k. unfold do_update.
+    destruct (fixU && mnormal m && writes_normal k && other_normal (mid m) (modes s0)); [reflexivity|].
+    destruct (negb (mask_valid k)); [reflexivity|].
     destruct (find _ _); reflexivity. }
   assert (D : forall s i a, changed (fst (do_delete fixD s i a)) = changed s).
   { intros s0 i a. unfold do_delete. destruct (String.eqb _ _); [reflexivity|].
@@ -446,10 +451,15 @@ Lemma active_survives_step : forall fixU fixD s now o,
 Proof.
   intros fixU fixD s now o H.
   assert (A : forall m c, has (mid (active s)) (modes (fst (do_add s m c))) = true).
-  { intros m c. unfold do_add. repeat (destruct (_ : bool); try exact H).
+  { intros m c. unfold do_add.
+    destruct (mnormal m && has_normal (modes s)); [exact H|].
+    destruct (c && (is_empty (mid m) || has (mid m) (modes s))); [exact H|].
+    destruct (has (mid m) (modes s)); [exact H|].
     cbn. rewrite has_insert, H. apply Bool.orb_true_r. }
   assert (U : forall m k, has (mid (active s)) (modes (fst (do_update fixU s m k))) = true).
-  { intros m k. unfold do_update. repeat (destruct (_ : bool); try exact H).
+  { intros m k. unfold do_update.
+    destruct (fixU && mnormal m && writes_normal k && other_normal (mid m) (modes s)); [exact H|].
+    destruct (negb (mask_valid k)); [exact H|].
     destruct (find _ _); [|exact H]. cbn. rewrite has_replace. exact H. }
   assert (D : forall i a, has (mid (active s)) (modes (fst (do_delete fixD s i a))) = true).
   { intros i a. unfold do_delete. destruct (String.eqb_spec i (mid (active s))) as [E|E]; [exact H|].
@@ -520,28 +530,35 @@ Lemma sclear_is_clear : forall s now, step s now SClear = step s now OClear.
 Proof. reflexivity. Qed.
 
 (* 5. switching to a different mode stamps its start time with the clock's current time *)
+Definition switched_to (s : state) (now : Z) (s' : state) (r : res) : Prop :=
+  rret r = Some (active s') /\ modes s' = modes s /\
+  exists m, find (mid (active s')) (modes s) = Some m /\
+            mid (active s') = mid m /\ mtitle (active s') = mtitle m /\ mnormal (active s') = mnormal m /\
+            mstart (active s') = (if String.eqb (mid (active s)) (mid m) then mstart m else Some now).
+
 Theorem switch_stamps_clock : forall fixU fixD s now o s' r,
   switches o = true -> step_gen fixU fixD s now o = (s', r) -> rcode r = 0 ->
-  rret r = Some (active s') /\ modes s' = modes s /\
-  find (mid (active s')) (modes s) =
-    Some (if String.eqb (mid (active s)) (mid (active s')) then active s'
-          else with_start (active s') (match find (mid (active s')) (modes s) with Some m => mstart m | None => None end)) /\
+  switched_to s now s' r /\
   (mid (active s') <> mid (active s) -> mstart (active s') = Some now).
 Proof.
   intros fixU fixD s now o s' r Sw St Rc.
   assert (C : forall id, do_change s now id = (s', r) ->
-          rret r = Some (active s') /\ modes s' = modes s /\
-          find (mid (active s')) (modes s) =
-            Some (if String.eqb (mid (active s)) (mid (active s')) then active s'
-                  else with_start (active s') (match find (mid (active s')) (modes s) with Some m => mstart m | None => None end)) /\
+          switched_to s now s' r /\
           (mid (active s') <> mid (active s) -> mstart (active s') = Some now)).
   { intros id H. unfold do_change in H. destruct (find id (modes s)) as [m|] eqn:F.
-    - destruct (find_some _ _ _ F) as [Eid _]. inversion H; subst s' r; clear H. cbn.
-      destruct (String.eqb_spec (mid (active s)) (mid m)) as [E|E]; cbn.
-      + rewrite F. split; [reflexivity|]. split; [reflexivity|]. split; [reflexivity|].
-        intros C. exfalso. apply C. symmetry. exact E.
-      + rewrite F. split; [reflexivity|]. split; [reflexivity|]. split; [destruct m; reflexivity|].
-        intros _. reflexivity.
+    - destruct (find_some _ _ _ F) as [Eid _]. inversion H; subst s' r; clear H. subst id.
+      unfold switched_to. cbn [active set_active modes rret ok_].
+      destruct (String.eqb_spec (mid (active s)) (mid m)) as [E|E].
+      + split.
+        * split; [reflexivity|]. split; [reflexivity|]. exists m. rewrite F.
+          split; [reflexivity|]. split; [reflexivity|]. split; [reflexivity|]. split; [reflexivity|].
+          destruct (String.eqb_spec (mid (active s)) (mid m)); [reflexivity|contradiction].
+        * intros C. exfalso. apply C. symmetry. exact E.
+      + split.
+        * split; [reflexivity|]. split; [reflexivity|]. exists m. cbn [mid with_start]. rewrite F.
+          split; [reflexivity|]. split; [reflexivity|]. split; [reflexivity|]. split; [reflexivity|].
+          cbn [mstart]. destruct (String.eqb_spec (mid (active s)) (mid m)); [contradiction|reflexivity].
+        * intros _. reflexivity.
     - inversion H; subst. cbn in Rc. discriminate. }
   destruct o; cbn in Sw; try discriminate; cbn [step_gen] in St.
   - apply (C id). exact St.
@@ -606,9 +623,15 @@ Theorem failed_is_noop : forall fixU fixD s now o,
 Proof.
   intros fixU fixD s now o.
   assert (A : forall m c, rcode (snd (do_add s m c)) <> 0 -> fst (do_add s m c) = s).
-  { intros m c. unfold do_add. repeat (destruct (_ : bool); try reflexivity). cbn. intros C; exfalso; apply C; reflexivity. }
+  { intros m c. unfold do_add.
+    destruct (mnormal m && has_normal (modes s)); [reflexivity|].
+    destruct (c && (is_empty (mid m) || has (mid m) (modes s))); [reflexivity|].
+    destruct (has (mid m) (modes s)); [reflexivity|].
+    cbn. intros C; exfalso; apply C; reflexivity. }
   assert (U : forall m k, rcode (snd (do_update fixU s m k)) <> 0 -> fst (do_update fixU s m k) = s).
-  { intros m k. unfold do_update. repeat (destruct (_ : bool); try reflexivity).
+  { intros m k. unfold do_update.
+    destruct (fixU && mnormal m && writes_normal k && other_normal (mid m) (modes s)); [reflexivity|].
+    destruct (negb (mask_valid k)); [reflexivity|].
     destruct (find _ _); [|reflexivity]. cbn. intros C; exfalso; apply C; reflexivity. }
   assert (D : forall i a, rcode (snd (do_delete fixD s i a)) <> 0 -> fst (do_delete fixD s i a) = s).
   { intros i a. unfold do_delete. destruct (String.eqb _ _); [reflexivity|].
